@@ -130,11 +130,11 @@ Record dual_proof := {
   dp_tblalh : bytes; dp_last : list bytes;
   dp_lin : option linear_proof; dp_lap : option linear_advance_proof }.
 
-(* `repaired` = false: the code as it stands. `repaired` = true: with the repair proposed in
-   fixes/C01-targetblalh.diff (in the branch sourceTxID >= TargetTxHeader.BlTxID, when sourceTxID ==
-   TargetTxHeader.BlTxID the last leaf of the target's tree, TargetBlTxAlh, must be the source's own
-   Alh). When that repair is committed, `verify_dual_proof` below becomes `verify_dual_proof_gen true`;
-   every theorem of Proofs/Sound.v is proved for both. *)
+(* `repaired` = true: the code as it stands (since /repo commit d34d669: in the branch
+   sourceTxID >= TargetTxHeader.BlTxID, when sourceTxID == TargetTxHeader.BlTxID the last leaf of the
+   target's tree, TargetBlTxAlh, must be the source's own Alh). `repaired` = false: the verifier
+   before that commit, kept only for the historical witness in Proofs/Refuted.v; every theorem of
+   Proofs/Sound.v is proved for both. *)
 Definition verify_dual_proof_gen (repaired : bool) (p : option dual_proof) (src tgt : N) (salh talh : bytes)
   : res bool :=
   match p with
@@ -162,6 +162,7 @@ Definition verify_dual_proof_gen (repaired : bool) (p : option dual_proof) (src 
         if negb (verify_linear_proof (dp_lin p) (h_bltxid th) tgt (dp_tblalh p) talh) then Ok false else
         verify_linear_advance_proof (dp_lap p) (h_bltxid sh) src salh (h_blroot th) (h_bltxid th)
       else
+        (* if sourceTxID == BlTxID && TargetBlTxAlh != sourceAlh { return false } *)
         if repaired && (src =? h_bltxid th) && negb (bytes_eqb (dp_tblalh p) salh) then Ok false else
         if negb (verify_linear_proof (dp_lin p) src tgt salh talh) then Ok false else
         verify_linear_advance_proof (dp_lap p) (h_bltxid sh) (h_bltxid th) (dp_tblalh p)
@@ -171,7 +172,7 @@ Definition verify_dual_proof_gen (repaired : bool) (p : option dual_proof) (src 
   end.
 
 (* VerifyDualProof as it stands in /repo *)
-Definition verify_dual_proof := verify_dual_proof_gen false.
+Definition verify_dual_proof := verify_dual_proof_gen true.
 
 (* ---------------- VerifyDualProofV2 ---------------- *)
 Record dual_proof_v2 := {
